@@ -138,8 +138,17 @@ def gen_stmts(d, lists, scal, p_fold=12):
         if d.chance(10):
             # bodies that need more than a plain copy when the foreach is unrolled: a slice of the element, a unique
             # among element and scalar, the list's own sum, and a foreach under a top-level if/else or implies
-            k2 = d.randint(0, 3)
+            k2 = d.randint(0, 4)
             w_ = l["elem"]["w"]
+            if k2 == 4:
+                # foreach -> if/implies -> foreach: the inner loop stays under the condition
+                inner = d.choice(lists)
+                imax = (1 << inner["elem"]["w"]) - 1
+                cond = ["bin", d.choice(["<", ">=", "=="]), el(n, ["iv", "i"]), L(d.randint(0, emax))] if d.chance(70) else \
+                    ["bin", d.choice(["<", ">="]), ["f", "s0"], L(d.randint(1, 6))]
+                ibody = [["foreach", inner["name"], "j", None, [["expr", ["bin", d.choice(["==", "!=", "<=", ">"]), el(inner["name"], ["iv", "j"]), L(d.randint(0, imax))]]]]]
+                out.append(["foreach", n, "i", None, [["if", [[cond, ibody]], None] if d.chance(60) else ["implies", cond, ibody]]])
+                continue
             if k2 == 0:
                 hi_ = d.randint(0, w_ - 1)
                 lo_ = d.randint(0, hi_)
